@@ -460,4 +460,238 @@ example : get_number_of_steps 0 (7 / 20) (1 / 10) = 3 := by
     (by norm_num) (1 / 2) (by unfold tolQ; norm_num) far_seven_halves
   rw [h]; norm_num
 
+/-! ### monotonicity of round-to-nearest -/
+
+theorem roundHalfEven_intCast (n : Int) : roundHalfEven (n : Rat) = n :=
+  roundHalfEven_eq_of_close _ n (by simp)
+
+theorem roundHalfEven_mono {a b : Rat} (h : a ≤ b) : roundHalfEven a ≤ roundHalfEven b := by
+  have hf : ⌊a⌋ ≤ ⌊b⌋ := Int.floor_mono h
+  rcases lt_or_eq_of_le hf with hlt | heq
+  · have ha : roundHalfEven a ≤ ⌊a⌋ + 1 := by
+      rcases roundHalfEven_cases a with ⟨h1, _⟩ | ⟨h1, _⟩ <;> omega
+    have hb : ⌊b⌋ ≤ roundHalfEven b := by
+      rcases roundHalfEven_cases b with ⟨h1, _⟩ | ⟨h1, _⟩ <;> omega
+    omega
+  · rw [roundHalfEven_def, roundHalfEven_def, heq]
+    have hr : a - ⌊b⌋ ≤ b - ⌊b⌋ := by linarith
+    split_ifs <;> first | omega | (exfalso; linarith)
+
+theorem scaleExp_anti {x y : Rat} (hx : 0 < x) (h : x ≤ y) : scaleExp y ≤ scaleExp x := by
+  by_contra hc
+  have hc' : scaleExp x + 1 ≤ scaleExp y := by omega
+  obtain ⟨hx1, _⟩ := scaleExp_spec hx
+  obtain ⟨_, hy2⟩ := scaleExp_spec (lt_of_lt_of_le hx h)
+  have hp : (2 : Rat) ^ (scaleExp x + 1) ≤ (2 : Rat) ^ (scaleExp y) :=
+    zpow_le_zpow_right₀ (by norm_num) hc'
+  rw [zpow_add_one₀ two_ne_zero] at hp
+  have hpx : (0 : Rat) < (2 : Rat) ^ (scaleExp x) := by positivity
+  have hpy : (0 : Rat) < (2 : Rat) ^ (scaleExp y) := by positivity
+  have h1 : x * (2 : Rat) ^ (scaleExp y) ≤ y * (2 : Rat) ^ (scaleExp y) :=
+    mul_le_mul_of_nonneg_right h hpy.le
+  have h2 : x * ((2 : Rat) ^ (scaleExp x) * 2) ≤ x * (2 : Rat) ^ (scaleExp y) :=
+    mul_le_mul_of_nonneg_left hp hx.le
+  linarith
+
+theorem rnd_mono_pos {x y : Rat} (hx : 0 < x) (h : x ≤ y) : rnd x ≤ rnd y := by
+  have hy : 0 < y := lt_of_lt_of_le hx h
+  obtain ⟨hx1, hx2⟩ := scaleExp_spec hx
+  obtain ⟨hy1, hy2⟩ := scaleExp_spec hy
+  have hs := scaleExp_anti hx h
+  rw [rnd_of_pos hx, rnd_of_pos hy]
+  rcases lt_or_eq_of_le hs with hlt | heq
+  · -- different binades
+    have hnx : roundHalfEven (x * (2 : Rat) ^ (scaleExp x)) ≤ (2 ^ 53 : Int) := by
+      have := roundHalfEven_mono (a := x * (2 : Rat) ^ (scaleExp x)) (b := ((2 ^ 53 : Int) : Rat))
+        (by push_cast; exact hx2.le)
+      rwa [roundHalfEven_intCast] at this
+    have hny : (2 ^ 52 : Int) ≤ roundHalfEven (y * (2 : Rat) ^ (scaleExp y)) := by
+      have := roundHalfEven_mono (a := ((2 ^ 52 : Int) : Rat)) (b := y * (2 : Rat) ^ (scaleExp y))
+        (by push_cast; exact hy1)
+      rwa [roundHalfEven_intCast] at this
+    have hnx' : ((roundHalfEven (x * (2 : Rat) ^ (scaleExp x)) : Int) : Rat) ≤ 2 ^ 53 := by
+      exact_mod_cast hnx
+    have hny' : (2 : Rat) ^ 52 ≤ ((roundHalfEven (y * (2 : Rat) ^ (scaleExp y)) : Int) : Rat) := by
+      exact_mod_cast hny
+    generalize ((roundHalfEven (x * (2 : Rat) ^ (scaleExp x)) : Int) : Rat) = nx at *
+    generalize ((roundHalfEven (y * (2 : Rat) ^ (scaleExp y)) : Int) : Rat) = ny at *
+    have hp : (2 : Rat) ^ (-(scaleExp x)) * 2 ≤ (2 : Rat) ^ (-(scaleExp y)) := by
+      rw [← zpow_add_one₀ two_ne_zero]
+      exact zpow_le_zpow_right₀ (by norm_num) (by omega)
+    have hpx : (0 : Rat) < (2 : Rat) ^ (-(scaleExp x)) := by positivity
+    have hpy : (0 : Rat) < (2 : Rat) ^ (-(scaleExp y)) := by positivity
+    calc nx * (2 : Rat) ^ (-(scaleExp x)) ≤ 2 ^ 53 * (2 : Rat) ^ (-(scaleExp x)) :=
+          mul_le_mul_of_nonneg_right hnx' hpx.le
+      _ = 2 ^ 52 * ((2 : Rat) ^ (-(scaleExp x)) * 2) := by ring
+      _ ≤ 2 ^ 52 * (2 : Rat) ^ (-(scaleExp y)) := mul_le_mul_of_nonneg_left hp (by norm_num)
+      _ ≤ ny * (2 : Rat) ^ (-(scaleExp y)) := mul_le_mul_of_nonneg_right hny' hpy.le
+  · rw [heq]
+    have hpx : (0 : Rat) < (2 : Rat) ^ (scaleExp x) := by positivity
+    have hpn : (0 : Rat) < (2 : Rat) ^ (-(scaleExp x)) := by positivity
+    apply mul_le_mul_of_nonneg_right _ hpn.le
+    exact_mod_cast roundHalfEven_mono (mul_le_mul_of_nonneg_right h hpx.le)
+
+theorem rnd_nonneg {x : Rat} (hx : 0 ≤ x) : 0 ≤ rnd x := by
+  rcases lt_or_eq_of_le hx with h | h
+  · obtain ⟨h1, _⟩ := scaleExp_spec h
+    rw [rnd_of_pos h]
+    have hn : (0 : Int) ≤ roundHalfEven (x * (2 : Rat) ^ (scaleExp x)) := by
+      have := roundHalfEven_mono (a := ((0 : Int) : Rat)) (b := x * (2 : Rat) ^ (scaleExp x))
+        (by push_cast; linarith [show (0 : Rat) < 2 ^ 52 by norm_num])
+      rwa [roundHalfEven_intCast] at this
+    have : (0 : Rat) ≤ ((roundHalfEven (x * (2 : Rat) ^ (scaleExp x)) : Int) : Rat) := by
+      exact_mod_cast hn
+    positivity
+  · rw [← h, rnd_zero]
+
+theorem rnd_mono {x y : Rat} (h : x ≤ y) : rnd x ≤ rnd y := by
+  rcases lt_or_ge 0 x with hx | hx
+  · exact rnd_mono_pos hx h
+  · rcases le_or_gt 0 y with hy | hy
+    · have h1 : 0 ≤ rnd (-x) := rnd_nonneg (by linarith)
+      rw [rnd_neg] at h1
+      have h2 := rnd_nonneg hy
+      linarith
+    · have := rnd_mono_pos (x := -y) (y := -x) (by linarith) (by linarith)
+      rw [rnd_neg, rnd_neg] at this
+      linarith
+
+theorem gridTime_mono (s dt : Rat) (hdt : 0 ≤ dt) (a b : Int) (h : a ≤ b) :
+    fadd s (fmul (ofInt a) dt) ≤ fadd s (fmul (ofInt b) dt) := by
+  unfold fadd fmul ofInt
+  apply rnd_mono
+  apply add_le_add_right
+  apply rnd_mono
+  apply mul_le_mul_of_nonneg_right _ hdt
+  apply rnd_mono
+  exact_mod_cast h
+
+
+/-! ### monotonicity of the step count in the end time -/
+
+/-- the part of `stepsAlg` after the ratio has been computed -/
+def stepsOfRatio (rnd : Rat → Rat) (ratio : Rat) : Int :=
+  if |rnd (ratio - (roundHalfEven ratio : Int))| ≤
+      rnd (tolQ * max 1 |((roundHalfEven ratio : Int) : Rat)|) then roundHalfEven ratio
+  else truncInt ratio
+
+theorem stepsAlg_eq_ofRatio (rnd : Rat → Rat) (s e dt : Rat) :
+    stepsAlg rnd s e dt = stepsOfRatio rnd (rnd (rnd (e - s) / dt)) := by
+  unfold stepsAlg stepsOfRatio
+  simp only [fabs_eq_abs, decide_eq_true_eq, tol_eq, mkRat_one_one, truncInt_intCast]
+
+theorem truncInt_floor_or_ceil (r : Rat) : truncInt r = ⌊r⌋ ∨ truncInt r = ⌈r⌉ := by
+  rcases le_or_gt 0 r with h | h
+  · left; exact truncInt_of_nonneg h
+  · right; exact truncInt_of_neg h
+
+theorem roundHalfEven_floor_or_ceil (r : Rat) :
+    ⌊r⌋ ≤ roundHalfEven r ∧ roundHalfEven r ≤ ⌈r⌉ := by
+  have hfc := Int.floor_le_ceil r
+  rcases roundHalfEven_cases r with ⟨h1, _⟩ | ⟨h1, h2⟩
+  · rw [h1]; exact ⟨le_refl _, hfc⟩
+  · have : ⌊r⌋ < ⌈r⌉ := Int.lt_ceil.mpr (by linarith)
+    rw [h1]; constructor <;> omega
+
+theorem stepsOfRatio_bounds (rnd : Rat → Rat) (r : Rat) :
+    ⌊r⌋ ≤ stepsOfRatio rnd r ∧ stepsOfRatio rnd r ≤ ⌈r⌉ := by
+  have hfc := Int.floor_le_ceil r
+  unfold stepsOfRatio
+  split_ifs
+  · exact roundHalfEven_floor_or_ceil r
+  · rcases truncInt_floor_or_ceil r with h | h <;> rw [h] <;> constructor <;> omega
+
+section Mono
+variable (rnd : Rat → Rat) (hmono : ∀ x y, x ≤ y → rnd x ≤ rnd y) (h0 : rnd 0 = 0)
+include hmono h0
+
+/-- both ratios strictly inside the same unit cell `(f, f+1)` -/
+theorem stepsOfRatio_mono_cell (f : Int) (r1 r2 : Rat) (h1 : (f : Rat) < r1) (h12 : r1 ≤ r2)
+    (h2 : r2 < f + 1) : stepsOfRatio rnd r1 ≤ stepsOfRatio rnd r2 := by
+  have hf1 : ⌊r1⌋ = f := Int.floor_eq_iff.mpr ⟨h1.le, by linarith⟩
+  have hf2 : ⌊r2⌋ = f := Int.floor_eq_iff.mpr ⟨by linarith, h2⟩
+  have hc1 : ⌈r1⌉ = f + 1 := Int.ceil_eq_iff.mpr ⟨by push_cast; linarith, by push_cast; linarith⟩
+  have hc2 : ⌈r2⌉ = f + 1 := Int.ceil_eq_iff.mpr ⟨by push_cast; linarith, by push_cast; linarith⟩
+  have hn1 := roundHalfEven_floor_or_ceil r1
+  have hn2 := roundHalfEven_floor_or_ceil r2
+  rw [hf1, hc1] at hn1
+  rw [hf2, hc2] at hn2
+  have hn12 := roundHalfEven_mono h12
+  have hb1 := stepsOfRatio_bounds rnd r1
+  have hb2 := stepsOfRatio_bounds rnd r2
+  rw [hf1, hc1] at hb1
+  rw [hf2, hc2] at hb2
+  rcases le_or_gt 0 f with hf | hf
+  · -- non-negative cell: truncation is the floor
+    have hfQ : (0 : Rat) ≤ f := by exact_mod_cast hf
+    have ht1 : truncInt r1 = f := by rw [truncInt_of_nonneg (by linarith), hf1]
+    have ht2 : truncInt r2 = f := by rw [truncInt_of_nonneg (by linarith), hf2]
+    by_cases hcase : roundHalfEven r1 = f
+    · have : stepsOfRatio rnd r1 = f := by
+        unfold stepsOfRatio; split_ifs
+        · exact hcase
+        · exact ht1
+      omega
+    · have e1 : roundHalfEven r1 = f + 1 := by omega
+      have e2 : roundHalfEven r2 = f + 1 := by omega
+      unfold stepsOfRatio
+      rw [e1, e2, ht1, ht2]
+      have ha : rnd (r1 - ((f + 1 : Int) : Rat)) ≤ rnd (r2 - ((f + 1 : Int) : Rat)) :=
+        hmono _ _ (by linarith)
+      have hb : rnd (r2 - ((f + 1 : Int) : Rat)) ≤ 0 := by
+        have := hmono (r2 - ((f + 1 : Int) : Rat)) 0 (by push_cast; linarith)
+        rwa [h0] at this
+      have habs : |rnd (r2 - ((f + 1 : Int) : Rat))| ≤ |rnd (r1 - ((f + 1 : Int) : Rat))| := by
+        rw [abs_of_nonpos hb, abs_of_nonpos (le_trans ha hb)]; linarith
+      split_ifs with c1 c2
+      · exact le_refl _
+      · exact absurd (le_trans habs c1) c2
+      · omega
+      · exact le_refl _
+  · -- negative cell: truncation is the ceiling
+    have hfQ : (f : Rat) + 1 ≤ 0 := by exact_mod_cast hf
+    have ht1 : truncInt r1 = f + 1 := by rw [truncInt_of_neg (by linarith), hc1]
+    have ht2 : truncInt r2 = f + 1 := by rw [truncInt_of_neg (by linarith), hc2]
+    by_cases hcase : roundHalfEven r2 = f + 1
+    · have : stepsOfRatio rnd r2 = f + 1 := by
+        unfold stepsOfRatio; split_ifs
+        · exact hcase
+        · exact ht2
+      omega
+    · have e2 : roundHalfEven r2 = f := by omega
+      have e1 : roundHalfEven r1 = f := by omega
+      unfold stepsOfRatio
+      rw [e1, e2, ht1, ht2]
+      have ha : rnd (r1 - (f : Rat)) ≤ rnd (r2 - (f : Rat)) := hmono _ _ (by linarith)
+      have hb : 0 ≤ rnd (r1 - (f : Rat)) := by
+        have := hmono 0 (r1 - (f : Rat)) (by linarith)
+        rwa [h0] at this
+      have habs : |rnd (r1 - (f : Rat))| ≤ |rnd (r2 - (f : Rat))| := by
+        rw [abs_of_nonneg hb, abs_of_nonneg (le_trans hb ha)]; exact ha
+      split_ifs with c1 c2 c3
+      · exact le_refl _
+      · omega
+      · exact absurd (le_trans habs c3) c1
+      · exact le_refl _
+
+theorem stepsOfRatio_mono {r1 r2 : Rat} (h : r1 ≤ r2) :
+    stepsOfRatio rnd r1 ≤ stepsOfRatio rnd r2 := by
+  have hb1 := stepsOfRatio_bounds rnd r1
+  have hb2 := stepsOfRatio_bounds rnd r2
+  rcases le_or_gt ⌈r1⌉ ⌊r2⌋ with hc | hc
+  · omega
+  · exact stepsOfRatio_mono_cell rnd hmono h0 ⌊r2⌋ r1 r2 (Int.lt_ceil.mp hc) h
+      (Int.lt_floor_add_one r2)
+
+end Mono
+
+theorem steps_mono (s dt : Rat) (hdt : 0 < dt) {e1 e2 : Rat} (h : e1 ≤ e2) :
+    get_number_of_steps s e1 dt ≤ get_number_of_steps s e2 dt := by
+  rw [steps_abstract_eq, steps_abstract_eq, stepsAlg_eq_ofRatio, stepsAlg_eq_ofRatio]
+  apply stepsOfRatio_mono rnd (fun _ _ => rnd_mono) rnd_zero
+  apply rnd_mono
+  apply div_le_div_of_nonneg_right _ hdt.le
+  apply rnd_mono
+  linarith
+
 end OQuPyVerif.FloatGrid
